@@ -718,14 +718,29 @@ def roundtrip_tie(ctx: Ctx, res: Result, n: int):
         ft, fk, fn = tags(), rng.choice(d["feature"] if rng.random() < 0.97 else d["scenario"]), txt()
         scs = []
         for _ in range(rng.choice([0, 1, 1, 2, 3, 5])):
-            st = [(rng.choice(steps_kw) if rng.random() < 0.97 else rng.choice(steps_kw).strip(), txt()) for _ in range(rng.choice([0, 1, 2, 3, 4]))]
+            def table():
+                if rng.random() < 0.65:
+                    return []
+                w_ = rng.choice([1, 1, 2, 3, 4])
+                cells_ = ["", "a", "1 2", "é😀", "x:y", "@t", "#c", "Given", "<v>", "a\u00a0b", "\u3000", "a|b", "a\\nb", " lead", "trail ", "a\nb", '"""']
+                rows_ = [[rng.choice(cells_[:10] if rng.random() < 0.93 else cells_) for _ in range(w_)] for _ in range(rng.choice([1, 2, 3, 5]))]
+                if rng.random() < 0.04:
+                    rows_[-1] = rows_[-1][:-1]          # ragged / zero cells: not well formed
+                return rows_
+            st = [(rng.choice(steps_kw) if rng.random() < 0.97 else rng.choice(steps_kw).strip(), txt(), table()) for _ in range(rng.choice([0, 1, 2, 3, 4]))]
             scs.append((tags(), rng.choice(d["scenario"] + d["scenarioOutline"]), txt(), st))
         args = [dn, "".join(t + "\0" for t in ft), fk, fn]
         for t_, k_, n_, st in scs:
-            args += ["".join(t + "\0" for t in t_), k_, n_, "".join(k + "\0" + x + "\0" for k, x in st)]
-        if any("\0" in x for x in [fk, fn] + [y for t_, k_, n_, st in scs for y in [k_, n_] + [z for p in st for z in p]]):
+            enc_st = ""
+            for k, x, tb in st:
+                enc_st += k + "\0" + x + "\0" + str(len(tb)) + "\0"
+                for row_ in tb:
+                    enc_st += str(len(row_)) + "\0" + "".join(c_ + "\0" for c_ in row_)
+            args += ["".join(t + "\0" for t in t_), k_, n_, enc_st]
+        if any("\0" in x for x in [fk, fn] + [y for t_, k_, n_, st in scs for y in [k_, n_] + [z for p in st for z in p[:2]]]):
             continue
-        reqs.append(driver.request("render", *args))
+        res.stats["roundtrip_steps_with_table"] += sum(1 for t_, k_, n_, st in scs for p in st if p[2])
+        reqs.append(driver.request("render2", *args))
         models.append((dn, ft, fk, fn, scs))
     outs = driver.batch(reqs) if reqs else []
     n_wf = 0
@@ -2498,8 +2513,8 @@ PROPS = {
                 rule=GEN_RULE + "plus Unicode soup with surrogates/NUL and all strings ≤ L over a 10-symbol alphabet; non-trivial = any input"),
     "C02": dict(modules=["C02", "C02Tree", "C02Text", "C02Siblings"], run=run_C02, translators=["parser_table", "grammar", "siblings"], exhaustive=True,
                 rule="all line-kind sequences up to length L through the real Parser (stub matcher) vs the grammar reading (Spec.Sentence) and the table model's events; sampled longer ones; real-text documents; non-trivial = accepted"),
-    "C03": dict(modules=["C03", "C03Tree", "C03Parse", "C03Doc", "C03Fields", "C03Roundtrip"], run=run_C03, translators=["parser_table", "dialects"], rule=GEN_RULE + "non-trivial = accepted document"),
-    "C04": dict(modules=["C04", "C03Doc"], run=run_C04, translators=["parser_table", "dialects"], rule=GEN_RULE + "plus all rows/tag lines ≤ L over the distinguishing classes; non-trivial = any"),
+    "C03": dict(modules=["C03", "C03Tree", "C03Parse", "C03Doc", "C03Fields", "C03Roundtrip", "C03Roundtrip2"], run=run_C03, translators=["parser_table", "dialects"], rule=GEN_RULE + "non-trivial = accepted document"),
+    "C04": dict(modules=["C04", "C03Doc", "C14ErrorsDoc"], run=run_C04, translators=["parser_table", "dialects"], rule=GEN_RULE + "plus all rows/tag lines ≤ L over the distinguishing classes; non-trivial = any"),
     "C05": dict(modules=["C05", "C03Doc"], run=run_C05, translators=["dialects", "dialects_master"], exhaustive=True,
                 rule="complete enumeration dialect × keyword × role × layout through the real matcher; header spellings; one generated document per dialect; non-trivial = matched"),
     "C06": dict(modules=["C06"], run=make_compile_run(proj_pickle_origin), rule=GEN_RULE + "and synthetic ASTs decoded from random descriptors; non-trivial = at least one pickle"),
@@ -2513,7 +2528,7 @@ PROPS = {
     "C12": dict(modules=["C12", "C12Doc"], run=run_C12, translators=["parser_table"], exhaustive=True,
                 rule="every row string ≤ L over {|, \\, n, space, tab, other} plus Unicode rows; generated ragged/rectangular tables; non-trivial = at least one cell"),
     "C13": dict(modules=["C13", "C03Doc"], run=run_C13, translators=["parser_table"], rule="doc strings with content lines from every Gherkin-looking kind, both delimiters, all indentation relations; matcher in the content state; non-trivial = accepted"),
-    "C14": dict(modules=["C14", "C14Stop", "C14Recover", "C14Recover2"], run=run_C14, translators=["parser_table"], exhaustive=True,
+    "C14": dict(modules=["C14", "C14Stop", "C14Recover", "C14Recover2", "C14ErrorsDoc"], run=run_C14, translators=["parser_table"], exhaustive=True,
                 rule=GEN_RULE + "both error modes; all line-kind sequences ≤ L for error positions; non-trivial = rejected"),
     "C15": dict(modules=["C15"], run=run_C15, exhaustive=True,
                 rule="all ordered pairs (thorough: triples) of 12 state-perturbing documents through one Parser+TokenMatcher, sampled longer histories, random schedules of 2–3 concurrent parses gated at TokenScanner.read; non-trivial = any"),
